@@ -119,6 +119,14 @@ def check(tier, seed):
                     res.violation('a queued or handed-out packet was altered by restart / filter change / further parsing',
                                   {'property': 'C11', 'input': desc, 'implementation_says': impl[:800]}, 'c11-mut2|' + mid[0])
                 cases.append(Case('ubx-op-after-queued-frame', G.ubx_cmd([(c, i), (5, 1)], ops), impl, desc, kind='after-queued/' + mid[0]))
+        # the filter is a set of (class, id) PAIRS: frames combining the class of one entry with the id of another are not queued
+        for _ in range(40 if tier == 'quick' else 1500):
+            ents = rng.sample(G.CIDS + [(6, 0), (6, 1), (5, 1), (5, 0), (10, 4), (1, 7)], rng.randrange(2, 5))
+            crosses = sorted(set((a[0], b[1]) for a in ents for b in ents) - set(ents))
+            s = b''.join(G.frame(c_, i_, bytes([c_, i_])) for c_, i_ in crosses + ents)
+            ops = [('FS', ents), ('P', s)] + [('K',)] * (len(ents) + 1)
+            impl = G.impl_ubx(None, ops)
+            cases.append(Case('ubx-filter-cross', G.ubx_cmd(None, ops), impl, {'filter': ents, 'frames': crosses + ents}, kind='filter-cross'))
         cid_sweep(res, rng, tier)
         res.exhaustive = tier == 'thorough'
         res.compare(cases)
